@@ -761,12 +761,50 @@ DJV_CMD(reopen, "reopen")
     std::map<std::string, int64_t> cid, tid;
     for (auto& kv : S.crates) cid[kv.first] = kv.second.id();
     for (auto& kv : S.tracks) tid[kv.first] = kv.second.id();
+    // every per-field getter of every track (those tracks() lists and those a script variable holds), asked through
+    // the handles that exist BEFORE closing ...
+    std::map<int64_t, std::string> gbefore;
+    {
+        quiet_guard qg;
+        try
+        {
+            for (auto& t : DB().tracks()) gbefore.emplace(t.id(), track_getters_text(t));
+        }
+        catch (const std::exception&)
+        {
+        }
+        for (auto& kv : S.tracks) gbefore[kv.second.id()] = track_getters_text(kv.second);
+    }
     reset_all();
     e::engine_schema loaded{};
     S.db = e::load_database(S.dir, loaded);
     S.schema = name_of(loaded);
     size_t nc = 0, nt = 0;
     quiet_guard q;
+    // ... and through handles obtained from the library loaded again (a removed track has no handle afterwards:
+    // its getters all threw before, which is the text compared against)
+    std::string gdiff;
+    for (auto& kv : gbefore)
+    {
+        std::string after;
+        if (auto t = DB().track_by_id(kv.first)) after = track_getters_text(*t);
+        else
+        {
+            // no such track after loading: before closing every getter of the stale handle must have thrown
+            if (kv.second.find("valid=1") == std::string::npos) continue;
+            after = "(no track of this id after loading)";
+        }
+        if (after != kv.second && gdiff.empty())
+        {
+            // first differing field
+            size_t i = 0;
+            while (i < after.size() && i < kv.second.size() && after[i] == kv.second[i]) ++i;
+            size_t st = kv.second.rfind(' ', i);
+            if (st == std::string::npos) st = 0;
+            gdiff = " GETTERS-DIFFER track " + std::to_string((long long)kv.first) + " before:" +
+                    kv.second.substr(st, 160) + " after:" + (st < after.size() ? after.substr(st, 160) : after);
+        }
+    }
     for (auto& kv : cid)
         if (auto c = DB().crate_by_id(kv.second))
         {
@@ -779,7 +817,19 @@ DJV_CMD(reopen, "reopen")
             put_track(kv.first, *t);
             ++nt;
         }
-    return S.schema + " crates=" + std::to_string(nc) + " tracks=" + std::to_string(nt);
+    return S.schema + " crates=" + std::to_string(nc) + " tracks=" + std::to_string(nt) + gdiff;
+}
+
+// load2: every handle released, then the 2.x loader of its own (engine::v2::engine_library::load) instead of
+// load_database: <schema of the library it gives>
+DJV_CMD(load2, "load2")
+{
+    if (S.dir.empty()) throw bad_command{"no directory"};
+    reset_all();
+    auto lib = ev2::engine_library::load(S.dir);
+    S.db = lib.database();
+    S.schema = name_of(lib.schema());
+    return S.schema;
 }
 
 DJV_CMD(c10_dir, "c10.dir")
